@@ -719,7 +719,10 @@ where
         let id = match code {
             Code::Terminal => 1,
             Code::AbsoluteID => decode_7bit(input)?,
-            Code::RelativeID => node_id - decode_7bit(input)?,
+            Code::RelativeID => match node_id.checked_sub(decode_7bit(input)?) {
+                Some(id) => id,
+                None => return err("relative then/else ID too large"),
+            },
             Code::Relative1 => node_id - 1,
         };
         if id == 0 {
